@@ -115,7 +115,7 @@ func runC18(p *Prog, r *Report) {
 			}
 		}
 	}
-	r.Instances("D1-same-package", "positive verdicts", ntrue, 3)
+	r.Instances("D1-same-package", "positive verdicts", ntrue, 1)
 	// unknown ecosystem → false before the loop
 	unk, _ := guardEdges(fn, func(c ssa.Value) (bool, bool) {
 		op, x, y, ok := cmpNorm(c)
@@ -234,7 +234,7 @@ func runC18(p *Prog, r *Report) {
 				b, isB := constBool(retVal(ret, 0))
 				r.Check(isB && b, "D2-no-early-negative", fmt.Sprintf("%s:return-in-loop#%d", fa.key, i), p.Pos(ret.Pos()), "only 'true' is returned from inside the loops", "a verdict other than the constant 'true' is returned from inside the loops over affected entries and ranges: a negative result for one range ends the evaluation although a later range or entry may cover the version")
 			}
-			r.Instances("D2-no-early-negative", "returns inside the loops", n, 3)
+			r.Instances("D2-no-early-negative", "returns inside the loops", n, 1)
 		}
 	}
 
